@@ -51,7 +51,8 @@ func run(r req) (res rep) {
 }
 
 func main() {
-	zerolog.SetGlobalLevel(zerolog.Disabled)
+	// keep fatal and panic events alive: they end the run exactly as in the CLI (os.Exit / panic)
+	zerolog.SetGlobalLevel(zerolog.FatalLevel)
 	in := bufio.NewReaderSize(os.Stdin, 1<<20)
 	out := bufio.NewWriter(os.Stdout)
 	enc := json.NewEncoder(out)
